@@ -281,9 +281,10 @@ def gf2rank(M):
         i = r + idx[0]
         if i != r:
             M[[r, i]] = M[[i, r]]
-        for j in range(M.shape[0]):
-            if j != r and M[j, c]:
-                M[j] ^= M[r]
+        rows = np.nonzero(M[:, c])[0]
+        rows = rows[rows != r]
+        if len(rows):
+            M[rows] ^= M[r]
         r += 1
         if r == M.shape[0]:
             break
